@@ -723,8 +723,13 @@ class NumpyModel:
     def np_where(self, c, a=None, b=None):
         if a is None:
             raise Unsupported("np.where with one argument")
-        a = a if isinstance(a, np.ndarray) else full(np.shape(c), a)
-        b = b if isinstance(b, np.ndarray) else full(np.shape(c), b)
+        shp = (len(c),) if isinstance(c, Mask) else np.shape(c)
+        if isinstance(a, np.ndarray):
+            shp = a.shape
+        elif isinstance(b, np.ndarray):
+            shp = b.shape
+        a = a if isinstance(a, np.ndarray) else full(shp, a)
+        b = b if isinstance(b, np.ndarray) else full(shp, b)
         if isinstance(c, Mask):
             out = np.empty(a.shape, dtype=object)
             for g, cond in enumerate(c.conds):
